@@ -9,7 +9,10 @@ package cloudprovider
 
 // What a node group reports (its cached view, refreshed once per scan).
 //@ spec cpID(n iface) string
-//@ spec tgt(id string) int
+// TGT[id]: the target size the provider reports for a cloud group. Removing nodes lowers it (the AWS
+// provider keeps its cached desired capacity in step with the terminations it asks for).
+//@ ghost TGT [string]int
+//@ spec tgt(id string) int = TGT[id]
 //@ spec cmax(id string) int
 //@ spec cmin(id string) int
 
@@ -36,7 +39,8 @@ package cloudprovider
 // Jerr[k]: the error the cloud call of event k returned
 //@ ghost Jerr [int]iface
 //@ iface cloudprovider.NodeGroup.DeleteNodes(n, nodes) (err)
-//@   modifies Jlen, Jkind, Jname, Jnode, Jok, Jerr
+//@   modifies Jlen, Jkind, Jname, Jnode, Jok, Jerr, TGT
+//@   ensures TGT[cpID(n)] <= old(TGT)[cpID(n)] && (forall s string :: s != cpID(n) ==> TGT[s] == old(TGT)[s])
 //@   ensures forall k :: old(Jlen) <= k && k < Jlen ==> Jerr[k] == err
 //@   ensures forall k :: k < old(Jlen) ==> Jerr[k] == old(Jerr)[k]
 //@   ensures Jlen == old(Jlen) + len(nodes)
